@@ -186,9 +186,11 @@ class CodeGenPreprocessor(ToIndexLambdaMixin, CopyMapper):  # type: ignore[misc]
 
                     # {{{ see if it's one of the other kernels
 
-                    for other_knl in self.kernels_seen.values():
+                    # (the kernel recorded under *other_name* may still
+                    # carry the name it had before it was renamed)
+                    for other_name, other_knl in self.kernels_seen.items():
                         if other_knl.copy(name=name) == expr.translation_unit[name]:
-                            new_name = other_knl.name
+                            new_name = other_name
                             break
                     else:
                         # didn't find any other equivalent kernel, rename to
